@@ -50,6 +50,12 @@ def det_spec(kind, variant):
             "eq_params": {"theta": nz(0.75, 1.75), "phi": nz(0.25, 1.0)}, "hetero": None, "param_batch": None,
             "box": {"min": [-1.0] * max(d, 1), "max": [1.5] * max(d, 1)}}
     spec["eq"] = {"coef": [[nz(0.5, 1.5), nz(0.5, 1.5), q(-1, 1), nz(0.5, 1), nz(0.25, 1), q(-1, 1), nz(0.5, 1), nz(0.5, 1)]]}
+    if kind == "ode" and variant >= 10:
+        # variants >= 10: the batch also carries a per-sample batch of a 4th equation parameter (not one of the groups):
+        # the loss then takes its vmapped code paths. pnames sorted: kappa, phi, theta
+        spec["eq_params"]["kappa"] = 0.5
+        spec["eq"]["coef"][0] = spec["eq"]["coef"][0][:6] + [nz(0.5, 1)] + spec["eq"]["coef"][0][6:]
+        spec["param_batch"] = {"kappa": [0.25, 0.75, 1.25, 1.75]}
     w = {"dyn_loss": nz(0.5, 2), "observations": nz(0.5, 2)}
     if kind == "ode":
         spec["batch"] = {"t": [0.125, 0.5, 0.875, 1.25]}
@@ -99,15 +105,17 @@ def mask_bits(kind, mi):
     return out
 
 
-def make_dk(kind, bits, as_arrays=True):
+def make_dk(kind, bits, as_arrays=True, extra_keys=()):
     import jax.numpy as jnp
     import jinns
 
     conv = (lambda v: jnp.asarray(v)) if as_arrays else (lambda v: bool(v))
     kw = {}
     for t, gb in bits.items():
-        kw[t] = jinns.parameters.Params(nn_params=conv(gb["nn_params"]),
-                                        eq_params={"theta": conv(gb["theta"]), "phi": conv(gb["phi"])})
+        eqm = {"theta": conv(gb["theta"]), "phi": conv(gb["phi"])}
+        if extra_keys:
+            eqm.update({k: conv(False) for k in extra_keys})
+        kw[t] = jinns.parameters.Params(nn_params=conv(gb["nn_params"]), eq_params=eqm)
     return _dk_class(kind)(**kw)
 
 
@@ -128,8 +136,9 @@ def run_block(case):
     terms = TERMS[kind]
     nbits = len(terms) * len(GROUPS)
     all_on = mask_bits(kind, (1 << nbits) - 1)
-    loss, params, batch = build_single(spec, derivative_keys=make_dk(kind, all_on))
-    labels = [kind, case["mode"]]
+    extra = tuple(k for k in spec["eq_params"] if k not in ("theta", "phi"))
+    loss, params, batch = build_single(spec, derivative_keys=make_dk(kind, all_on, extra_keys=extra))
+    labels = [kind, case["mode"]] + (["param-batch"] if spec.get("param_batch") else [])
 
     def f_all(l, p, b):
         def tot(pp):
@@ -174,7 +183,7 @@ def run_block(case):
     checked = 0
     for mi in range(start, start + count * stride, stride):
         bits = mask_bits(kind, mi)
-        l2 = eqx.tree_at(lambda l: l.derivative_keys, loss, make_dk(kind, bits))
+        l2 = eqx.tree_at(lambda l: l.derivative_keys, loss, make_dk(kind, bits, extra_keys=extra))
         g, total, tdict = jit_all(l2, params, batch)
         if not (np.array_equal(np.asarray(total), np.asarray(total0)) and
                 all(np.array_equal(np.asarray(tdict[k]), vals0[k]) for k in vals0)):
@@ -195,7 +204,7 @@ def run_block(case):
     # ---- per-term gradients on a few masks of the block (a compensation between terms cannot hide a mis-routed block)
     for mi in list(range(start, start + count * stride, stride))[:: max(1, count // 6)][:6]:
         bits = mask_bits(kind, mi)
-        l2 = eqx.tree_at(lambda l: l.derivative_keys, loss, make_dk(kind, bits))
+        l2 = eqx.tree_at(lambda l: l.derivative_keys, loss, make_dk(kind, bits, extra_keys=extra))
         for t in terms:
             gt = _flat(f_term(l2, params, batch, t))
             for gname in GROUPS:
@@ -214,6 +223,7 @@ def enum_blocks(tier):
     variants = [0, 1] if tier == "quick" else [0, 1, 2]
     for v in variants:
         yield {"kind": "ode", "spec": det_spec("ode", v), "block": [0, 512], "mode": "jit"}
+        yield {"kind": "ode", "spec": det_spec("ode", 10 + v), "block": [0, 512], "mode": "jit"}
     for v in variants[: (1 if tier == "quick" else 3)]:
         for b in range(4):
             yield {"kind": "statio", "spec": det_spec("statio", v), "block": [1024 * b, 1024], "mode": "jit"}
@@ -234,7 +244,7 @@ def strat_eager():
     def s(draw):
         kind = draw(st.sampled_from(["ode", "statio", "nonstatio"]))
         nbits = len(TERMS[kind]) * 3
-        return {"kind": kind, "spec": det_spec(kind, draw(st.integers(0, 5))),
+        return {"kind": kind, "spec": det_spec(kind, draw(st.integers(0, 5)) + (10 if kind == "ode" and draw(st.booleans()) else 0)),
                 "block": [draw(st.integers(0, (1 << nbits) - 3)), 3], "mode": "eager"}
 
     return s()
